@@ -22,6 +22,7 @@ func frameGroup(p *core.Prog, rep *core.Report) {
 	cd7LogicalSize(p, rep)
 	wd1WideOffsets(p, rep, bs)
 	cd8CursorInBlock(p, rep, bs)
+	cd9OpenCursor(p, rep, bs)
 	chunkTypeProtocol(p, rep)
 	cd4Framing(p, rep)
 	wr1SingleWrite(p, rep)
@@ -32,7 +33,9 @@ func frameGroup(p *core.Prog, rep *core.Report) {
 	eof1(p, rep)
 	eof2ScanEnds(p, rep)
 	ps8Readers(p, rep, "read")
+	ps8Backend(p, rep)
 	rt2Decoded(p, rep)
+	pool3BufferSingleRelease(p, rep)
 }
 
 // batchGroup: tagging, sealing, staging and the record pool (batch.go, replay in db.go).
